@@ -131,6 +131,8 @@ def compute_surface(F):
         if nm.split("::")[-1] in ("COMPRESSED_WRAPPER_VERSION_1", "FILE_VERSION"):
             continue
         S[part]["const:" + nm.replace(P, "")] = val
+    # ---- decision thresholds of the looping functions (V4) ------------------------------------------------
+    S["stream"]["thresholds"] = thresholds(F, [d for d in defs if d not in leaves])
     # ---- closed forms -------------------------------------------------------------------------------
     for d in leaves:
         try:
@@ -180,6 +182,58 @@ def _panics(b, bb, hops=0):
     if t["k"] == "goto" and hops < 6:
         return _panics(b, t["t"], hops + 1)
     return False
+
+
+def thresholds(F, fns):
+    """Global multiset of normalised `value vs constant` decisions in the given (looping) functions.
+    A comparison of an unsigned value X with a constant K is a cut of X's domain: X < K, X <= K-1, !(X >= K) ... all
+    normalise to ("cut", K) (the boundary between the two outcomes); X == K / X != K to ("eq", K), except against 0
+    where they are the cut at 1.  Variable names, branch polarity and the function the test lives in do not matter."""
+    from collections import Counter
+    cnt = Counter()
+    for d in fns:
+        b = F.bodies[d]
+        if not closed.has_loop(b):
+            continue
+        for sb in sorted(b.normal_blocks()):
+            st = b.term(sb)
+            if st["k"] != "switch":
+                continue
+            tg = [x for _, x in st["targets"]] + [st["otherwise"]]
+            if any(_panics(b, x) for x in tg):
+                continue        # assertion, not a decision of the algorithm
+            dp = op_place(st["d"])
+            if dp is None:
+                continue
+            dd = b.single_def(dp["l"]) if not dp["p"] else None
+            if dd and dd[2] == "assign" and dd[3]["k"] == "binop" and dd[3]["op"] in ("Lt", "Le", "Gt", "Ge", "Eq", "Ne"):
+                r = dd[3]
+                kl, kr = flow.const_eval(b, r["l"]), flow.const_eval(b, r["r"])
+                if (kl is None) == (kr is None):
+                    continue
+                op = r["op"]
+                if kl is not None:      # K op X  ->  X op' K
+                    op = {"Lt": "Gt", "Le": "Ge", "Gt": "Lt", "Ge": "Le"}.get(op, op)
+                    k, xop = kl, r["r"]
+                else:
+                    k, xop = kr, r["l"]
+                xp = op_place(xop)
+                ty = b.local_ty(xp["l"]) if xp is not None and not xp["p"] else "?"
+                unsigned = ty.startswith("u")
+                if op in ("Lt", "Ge"):
+                    atom = ("cut", k)
+                elif op in ("Le", "Gt"):
+                    atom = ("cut", k + 1)
+                elif k == 0 and unsigned:
+                    atom = ("cut", 1)
+                else:
+                    atom = ("eq", k)
+                cnt[(ty,) + atom] += 1
+            elif len(st["targets"]) >= 2 and not (dd and dd[2] == "assign" and dd[3]["k"] == "discr"):
+                ty = st.get("dty", "?")
+                if re.match(r"^[ui](8|16|32|64|size)$", ty):
+                    cnt[(ty, "switch", tuple(sorted(v for v, _ in st["targets"])))] += 1
+    return [[list(k), v] for k, v in sorted(cnt.items(), key=lambda kv: repr(kv[0]))]
 
 
 def _consts_in(j):
@@ -257,7 +311,7 @@ def run(ctx, rep):
         rep.missing("V2", "reference/format_surface.json")
         return
     ref = json.load(open(REF))
-    cur = compute_surface(F)
+    cur = json.loads(json.dumps(compute_surface(F)))
     changed_gate = {g: cur["versions"][g] != ref["versions"][g] for g in ("wrapper", "file")}
     for g in ("wrapper", "file"):
         if changed_gate[g]:
@@ -281,6 +335,11 @@ def run(ctx, rep):
                 rep.add(rule, k, True, "", "differs from the reference, announced by the %s version change" % GATE[part])
             else:
                 what = "removed from" if cv is None else ("new in" if rv is None else "changed in")
+                if k == "thresholds" and isinstance(rv, list) and isinstance(cv, list):
+                    ra, ca = {json.dumps(a): n for a, n in rv}, {json.dumps(a): n for a, n in cv}
+                    gone = ["%s x%d" % (a, ra[a] - ca.get(a, 0)) for a in ra if ra[a] > ca.get(a, 0)]
+                    new = ["%s x%d" % (a, ca[a] - ra.get(a, 0)) for a in ca if ca[a] > ra.get(a, 0)]
+                    rv, cv = "decisions no longer present: %s" % gone, "new decisions: %s" % new
                 rep.add(rule, k, False, "", "%s the format surface while %s is unchanged: stored data of the reference build would be interpreted differently. reference=%s current=%s" % (
                     what, {"wrapper": "COMPRESSED_WRAPPER_VERSION_1", "file": "FILE_VERSION"}[GATE[part]], _short(rv), _short(cv)))
     rep.floor("V2", "surface-items", n, 60)
